@@ -20,6 +20,14 @@ def load(path=PATH):
         d = json.load(f)
     d.setdefault("findings", [])
     d.setdefault("fixed", [])
+    # per-property files (committed, never written at run time) are merged in
+    import glob
+
+    for p in sorted(glob.glob(os.path.join(os.path.dirname(path), "known_findings.d", "*.json"))):
+        with open(p) as f:
+            e = json.load(f)
+        d["findings"].extend(e.get("findings", []))
+        d["fixed"].extend(e.get("fixed", []))
     return d
 
 
